@@ -20,6 +20,9 @@ CHECKS = {
  "C05": ("exploration", "exhaustive enumeration of a (start, dt, steps) lattice; grid labels compared with == against the Decimal grid on every channel",
          "Every (start, dt, n) of the lattice (n <= 40 quick, <= 400 thorough): timerange, run_scenarios df/dict/json, plot, stepwise session keys and session_results equal the exact decimal grid label by label; a step-counting stock returns i on every arithmetic route to grid point i.",
          "dt and start with finite decimal expansions only; the session is begun with the model's own start and dt.", "§4 C05"),
+ "C10": ("exploration", "exhaustive enumeration of ordered operand-shape pairs x operators x result holders against numpy",
+         "All ordered pairs of operand kinds (number, scalar element, vectors, matrices up to 3x3 / 4x4, named vectors/matrices with equal and different names) x {+,-,*,/,dot} x holder {converter, flow, stock}, and all aggregates: accepted equations equal numpy entry by entry with exactly the expected shape; mismatched shapes/names must raise.",
+         "numpy is the oracle; element-wise operators require equal shapes (no broadcasting between arrays); arr_size judged for vectors only.", "§4 C10"),
  "C14": ("model_checking", "explicit-state BFS over operation histories on the real Model, dict reference compared on every transition",
          "All create/delete/configure/reset/set_state histories up to depth 5 (quick) / 7 (thorough) over two agent types; every registry query compared with a dict id->(type,state) after every transition.",
          "Agents created through factories whose name equals agent_type; ids offered to delete range over all ids ever issued (live and dead).", "§4 C14"),
